@@ -6,6 +6,7 @@
                       extensible -> handleExtensibleCmd: !syncReached -> ignored; extpool.Add (verify: witness / sender ->
                                     error = the connection is closed; already pooled -> ignored); handler (Service.OnPayload
                                     puts it on the service's channel); advertiseExtensible = inv to every handshaked peer
+                      inv        -> handleInvCmd: a payload the pool does not hold is requested from that peer (getdata)
                       tx         -> handleTxCmd: txIn.Add drops what is in flight or pooled, else hands it to the tx loops
                       getdata    -> handleGetDataCmd(extensible): served from the pool
      TxLoop(e)      one iteration of txHandlerLoop: consensus callback if the hash is in the callback list, verifyAndPoolTX,
@@ -46,6 +47,7 @@ Mute == uni.mute
 XM(x) == [k |-> "x", x |-> x]
 TM(t) == [k |-> "t", t |-> t, ok |-> t \notin BadCopy]
 GM(x) == [k |-> "g", x |-> x]
+IM(x) == [k |-> "i", x |-> x]      \* inv: the peer announces payload x and serves it when the node asks
 
 Init == /\ uni \in Universes
         /\ synced = FALSE /\ started = FALSE /\ closed = {} /\ inq = [p \in Peers |-> uni.script[p]] /\ pool = {}
@@ -92,6 +94,10 @@ HandleT(p, m) ==
        THEN UNCHANGED txin
        ELSE txin' = txin \cup {[t |-> m.t, ok |-> m.ok]}
 
+\* handleInvCmd(extensible): what the pool does not hold is requested (getdata); the peer answers on the same connection
+HandleI(p, m) ==
+    /\ inq' = [inq EXCEPT ![p] = IF m.x \in pool THEN Tail(@) ELSE Append(Tail(@), XM(m.x))]
+
 HandleG(p, m) ==
     /\ inq' = [inq EXCEPT ![p] = Tail(@)]
     /\ served' = IF m.x \in pool THEN served \cup {<<p, m.x>>} ELSE served
@@ -102,6 +108,7 @@ Handle(p) ==
        CASE m.k = "x" -> HandleX(p, m) /\ UNCHANGED <<synced, started, mem, txin, cb, have, pc, miss, want, asked, todo, offered, served>>
          [] m.k = "t" -> HandleT(p, m) /\ UNCHANGED <<synced, started, closed, pool, dcnt, told, svcq, mem, cb, have, pc, miss, want, asked, todo, rcv, served>>
          [] m.k = "g" -> HandleG(p, m) /\ UNCHANGED <<synced, started, closed, pool, dcnt, told, svcq, mem, txin, cb, have, pc, miss, want, asked, todo, rcv, offered>>
+         [] m.k = "i" -> HandleI(p, m) /\ UNCHANGED <<synced, started, closed, pool, dcnt, told, svcq, mem, txin, cb, have, pc, miss, want, asked, todo, rcv, offered, served>>
 
 TxLoop(e) ==
     /\ e \in txin
